@@ -349,6 +349,21 @@ class C07(Spec):
             for _ in range(rng.randint(2, 6)):
                 keys += rng.choice([[ord("1"), 13], [ord("1"), 13, ord("j")], [ord("k")], [ord("1"), 13, 27], [ord("2"), 13], [ord("1"), ord("."), ord("h")]])
             fcases.append(ui_case(w, keys, preload=rng.choice((1, 2)), width=rng.choice((60, 24)), feeds=feeds))
+        # the transient "Opening <link>..." state: the hook program is slow, the key that starts it is observed at once and again later
+        ocases = []
+        for _ in range(30 if tier == "quick" else 1000):
+            w = thread_world(rng)
+            while len(w[0][w[1]][3]) < 1:
+                w = thread_world(rng)
+            keys = []
+            for _ in range(rng.randint(1, 3)):
+                keys += [ord(rng.choice("12")), 260, 13] + [ord(rng.choice("jk"))] * rng.randint(0, 1)
+            ocases.append(ui_case(w, keys, preload=2, width=rng.choice((60, 30)), feeds=feeds))
+        oenv = dict(env)
+        oenv["VERIF_DUMP_DELAY_MS"] = "250"
+        ob = Batch("c07-opening", ocases, config=cfg, env=oenv, timeout=900, correspondence="the Opening state while the media hook runs == Ui.open_externally")
+        ob.parallel = False
+        runner.run_batches(self, scratch, binary, [ob], report)
         fb = Batch("c07-hookfail", fcases, config="[media]\nhook = [\"false\", \"%url\"]\n", env=env, timeout=900,
                    correspondence="a failing media hook: ui.State == Ui.run_task THook with hook_fails")
         fb.parallel = False
